@@ -5,6 +5,8 @@ set -e
 export CARGO_NET_OFFLINE=true
 cd "$(dirname "$0")/harness"
 cargo build --release -p vcheck 2>&1 | tail -2
+# second build of the harness without debug assertions (thorough tier only; built here so that the first thorough run does not pay for it)
+cargo build --profile plain -q -p vcheck 2>/dev/null || true
 # C18 probes: one cfgdiff binary per buildable feature set of tls-parser, and the Send/Sync probe
 ( cd cfgdiff
   CARGO_TARGET_DIR=../target-cfg-none cargo build --release -q 2>/dev/null
